@@ -563,7 +563,9 @@ fn k_canary_must_fail() {
 }
 
 /// raw round trips with an over-aligned payload (the value does not sit directly behind the counters)
-#[repr(align(64))]
+// alignment larger than the header of RcBox (which, under cfg(kani), contains the table stand-in), so
+// that the value does not sit directly behind the header
+#[repr(align(1024))]
 struct Wide(u8);
 
 #[kani::proof]
